@@ -286,6 +286,20 @@ static void coder_cases(Out &o, Rng &r, int n, int maxops) {
       default: { FoldedBit32Decoder<RAnsBitDecoder> d; res = run_dec(d, ops, buf, 0x0202, 0); break; }
     }
     if (res != want_text(ops, 0, junk)) o.fail(name + " round trip: " + ops_text(ops) + " got [" + res + "]");
+    { // the same sequence through coder OBJECTS THAT HAVE BEEN USED BEFORE (every earlier case of this run): a coder must forget its history
+      static RAnsBitEncoder re0; static AdaptiveRAnsBitEncoder re1; static DirectBitEncoder re2; static FoldedBit32Encoder<RAnsBitEncoder> re3; static FoldedBit32Encoder<AdaptiveRAnsBitEncoder> re4;
+      static RAnsBitDecoder rd0; static AdaptiveRAnsBitDecoder rd1; static FoldedBit32Decoder<RAnsBitDecoder> rd3; static FoldedBit32Decoder<AdaptiveRAnsBitDecoder> rd4;
+      EncoderBuffer eb2; std::string r2;
+      switch (which) { case 0: run_enc(re0, ops, eb2); r2 = run_dec(rd0, ops, buf, 0x0202, 0); break; case 1: run_enc(re1, ops, eb2); r2 = run_dec(rd1, ops, buf, 0x0202, 0); break;
+                       case 2: run_enc(re2, ops, eb2); r2 = res; break; default: run_enc(re3, ops, eb2); r2 = run_dec(rd3, ops, buf, 0x0202, 0); break; }
+      if (eb2.size() != eb.size() || memcmp(eb2.data(), eb.data(), eb.size()) != 0) o.fail(name + " reused ENCODER object produced different bytes: " + ops_text(ops));
+      if (r2 != res) o.fail(name + " reused DECODER object decoded differently: " + ops_text(ops) + " got [" + r2 + "]");
+      // folded over the adaptive coder (not used by the current encoders, still part of the library): fresh vs reused objects
+      EncoderBuffer f1, f2; { FoldedBit32Encoder<AdaptiveRAnsBitEncoder> fe; run_enc(fe, ops, f1); } run_enc(re4, ops, f2);
+      if (f1.size() != f2.size() || memcmp(f1.data(), f2.data(), f1.size()) != 0) o.fail("folded-adaptive reused ENCODER object produced different bytes: " + ops_text(ops));
+      std::vector<uint8_t> fb(f1.data(), f1.data() + f1.size()); std::string a1, a2; { FoldedBit32Decoder<AdaptiveRAnsBitDecoder> fd; a1 = run_dec(fd, ops, fb, 0x0202, 0); } a2 = run_dec(rd4, ops, fb, 0x0202, 0);
+      if (a1 != want_text(ops, 0, 0)) o.fail("folded-adaptive round trip: " + ops_text(ops) + " got [" + a1 + "]");
+      if (a2 != a1) o.fail("folded-adaptive reused DECODER object decoded differently: " + ops_text(ops) + " got [" + a2 + "]"); }
     for (int pass = 0; pass < 2; pass++) {
       std::vector<uint8_t> b2 = pass == 0 ? buf : corrupt(r, buf);
       int ver = (pass == 1 && which != 1 && which != 2 && r.chance(30)) ? 0x0201 : 0x0202;
